@@ -222,6 +222,103 @@ register('C07', corr=abi_corr('dec'),
                       'usize is 64-bit in the harness build; offsets are below 2^32+32 so no wrap on wasm32 either'])
 
 
+# ------------------------------------------------------------------ trace-based correspondence (contracts in the VM)
+
+def trace_corr(mode, module, ntraces, relevant, rule, nontrivial, corpus_dir=None):
+    """mode: harness mode; module: tools/<module>.py with write_case_file(path, traces);
+    relevant(step_op, code) -> bool: is a mismatch with these bits inside the property's projection."""
+    def corr(ctx, cid, tier, seed):
+        import importlib
+        mod = importlib.import_module(module)
+        n = ntraces[0] if tier == 'quick' else ntraces[1]
+        traces = []
+        cdir = os.path.join(ctx.ROOT, 'corpus', corpus_dir or mode)
+        if os.path.isdir(cdir):
+            for fn in sorted(os.listdir(cdir)):
+                rc, lines, err = ctx.run_harness([mode + '-file', os.path.join(cdir, fn)])
+                traces += [json.loads(l) for l in lines]
+        rc, lines, err = ctx.run_harness([mode, seed, n])
+        if rc != 0:
+            raise RuntimeError('harness %s mode failed: %s' % (mode, err[-500:]))
+        traces += [json.loads(l) for l in lines]
+        shards = max(1, min(ctx.NPROC, len(traces)))
+        wd = os.path.join(ctx.BUILD, 'cases', cid)
+        os.makedirs(wd, exist_ok=True)
+        for f in os.listdir(wd):
+            os.remove(os.path.join(wd, f))
+        parts = [traces[i::shards] for i in range(shards)]
+        files = []
+        for i, part in enumerate(parts):
+            f = os.path.join(wd, 'cases_%d.v' % i)
+            mod.write_case_file(f, part)
+            files.append(f)
+        outs = ctx.coq_eval_files(files)
+        monitor_failures, corr_mismatches, warnings = [], [], []
+        nsteps = 0
+        dist = collections.Counter()
+        for i, f in enumerate(files):
+            rc, out = outs[f]
+            res = ctx.parse_N_lists(out) if rc == 0 else None
+            if res is None or len(res) != len(parts[i]):
+                raise RuntimeError('cannot evaluate %s: %s' % (f, out[-1500:]))
+            for tr, codes in zip(parts[i], res):
+                steps = [{'op': {'op': 'init', 'label': 'init'}, 'res': tr['init']['res']}] + tr['steps']
+                if len(codes) != len(steps):
+                    raise RuntimeError('trace %s: %d codes for %d steps' % (tr.get('trace'), len(codes), len(steps)))
+                nsteps += len(steps)
+                first = True
+                for k, (st, code) in enumerate(zip(steps, codes)):
+                    dist['%s/%s' % (st['op']['op'], 'ok' if st['res']['ok'] else 'rejected')] += 1
+                    if code and first:
+                        first = False   # only the first divergence of a trace is meaningful
+                        item = {'trace': tr.get('trace'), 'step': k, 'code': code, 'op': st['op'], 'impl': st['res'],
+                                'history': {'init': tr['init'], 'steps': tr['steps'][:k]},
+                                'why': 'implementation deviates from the Coq model (for which the property is proved) at this step; '
+                                       'code bits: 1 status, 2 return data, 4 events, 8 storage, 16 balances, 32 property monitor'}
+                        if relevant(st['op'], code):
+                            monitor_failures.append(item)
+                        else:
+                            warnings.append({'trace': tr.get('trace'), 'step': k, 'code': code, 'op': st['op']['op']})
+        seen = set(); nt = 0
+        for tr in traces:
+            key = hashlib.sha1(json.dumps(tr['steps'], sort_keys=True).encode()).hexdigest()
+            if key in seen:
+                continue
+            seen.add(key)
+            if nontrivial(tr):
+                nt += 1
+        sample = traces[0] if traces else {}
+        samples = [{'init': {k: v for k, v in sample.get('init', {}).items() if k != 'res'},
+                    'ops': [dict((k, (v if not isinstance(v, str) or len(v) < 120 else v[:120] + '...')) for k, v in s['op'].items()) | {'ok': s['res']['ok']}
+                            for s in sample.get('steps', [])[:8]]}]
+        return {'evaluations': nsteps, 'distinct_nontrivial': nt, 'rule': rule, 'samples': samples,
+                'traces_validated_against_impl': len(traces), 'distribution': dict(sorted(dist.items())),
+                'monitor_failures': monitor_failures, 'corr_mismatches': [], 'out_of_projection_mismatches': warnings[:20]}
+    return corr
+
+
+GW_RULE = ('histories generated by harness/src/gateway_mode.rs from one PRNG (seed=VERIF_SEED): deployments with retention 0-3, delay 0/10/100, '
+           '1-5 signers from a pool of 8 real ed25519 keys (small/equal/huge weights); approvals, rotations, validations, operatorship transfers and views; '
+           'proofs: minimal quorum, all sign, threshold-1, invalid signature before/after the quorum point, shifted/short/long/empty vector, wrong domain/tag/batch/set, '
+           'non-canonical weights, trailing byte, wrong key; sets: latest, older, retention edge, expired, unregistered; time steps around the rotation delay. '
+           'Every step compares status, return data, events and the storage diff with the Coq model (keccak-256 executed in Coq, signature oracle = table of honestly produced signatures). '
+           'distinct = distinct operation sequences; non-trivial = at least one accepted and one rejected state-changing operation')
+
+
+def gw_nontrivial(tr):
+    oks = [s['res']['ok'] for s in tr['steps'] if s['op']['op'] in ('approve', 'rotate', 'validate', 'transferOp')]
+    return any(oks) and not all(oks)
+
+
+register('C01', corr=trace_corr('gateway', 'gwcases', (48, 1600), lambda op, code: op['op'] == 'approve' and code & 9, GW_RULE, gw_nontrivial),
+         assumptions=['keccak-256 and ed25519 are outside the proofs: theorems hold for every hash and verifier function; collision-freedom appears only as explicit hypotheses of c01_digest_binding',
+                      'u64 timestamps: block time monotone and below 2^64'])
+register('C02', corr=trace_corr('gateway', 'gwcases', (48, 1600), lambda op, code: op['op'] in ('approve', 'validate', 'isApproved', 'isExecuted') and code & 15, GW_RULE, gw_nontrivial),
+         assumptions=['collision-freedom only as the explicit hypothesis of c02_binding'])
+register('C03', corr=trace_corr('gateway', 'gwcases', (48, 1600), lambda op, code: op['op'] in ('rotate', 'transferOp', 'init') and code & 9, GW_RULE, gw_nontrivial),
+         assumptions=['block time monotone (now >= last rotation timestamp) and below 2^64; the upgrade endpoint is not modelled'])
+
+
 # ------------------------------------------------------------------ replay
 
 def replay(ctx, path):
